@@ -317,7 +317,8 @@ Inductive dop :=
 | DSearch (base flt : bytes)
 | DSetUsers (us : list dentry)
 | DSetGroups (gs : list dentry)
-| DSetAnon (b : bool).
+| DSetAnon (b : bool)
+| DUsers.                                       (* the Users() getter: a probe, no request *)
 
 Record dresult := { res_code : Z; res_entries : list dentry }.
 
@@ -335,6 +336,7 @@ Definition dstep_with (lk lk2 : bytes -> dentry -> bool) (eqfold : bytes -> byte
   | DSetUsers us => (set_users d us, {| res_code := 0; res_entries := [] |})
   | DSetGroups gs => (set_groups d gs, {| res_code := 0; res_entries := [] |})
   | DSetAnon b => (set_anon d b, {| res_code := 0; res_entries := [] |})
+  | DUsers => (d, {| res_code := 0; res_entries := users d |})
   end.
 
 (* the directory *)
